@@ -79,14 +79,16 @@ def names_lemma(suffix):
         if rc == z3.unsat:
             return [{"name": f"stem-lemma/non-vacuous{suffix}", "status": "unknown", "where": "hypotheses of the lemma are contradictory"}]
         sv = z3.Solver()
-        sv.set("timeout", 15000)
+        sv.set("timeout", 60000)
         sv.add(pre, scan_post(s, i, end), end != z3.Length(d) + z3.Length(q))
-        r = sv.check()
-        solver = "z3"
-        if r != z3.unsat:
-            r2, secs = cvc5_check(sv.to_smt2(), timeout_s=120, want_model=False)
-            solver = "cvc5"
-            r = z3.unsat if r2 == "unsat" else z3.sat if r2 == "sat" else z3.unknown
+        # cvc5 decides this string lemma (20 s unloaded), z3 does not: cvc5 goes first, with a budget that a
+        # fully loaded machine does not exhaust
+        r2, secs = cvc5_check(sv.to_smt2(), timeout_s=480, want_model=False)
+        solver = "cvc5"
+        r = z3.unsat if r2 == "unsat" else z3.sat if r2 == "sat" else z3.unknown
+        if r == z3.unknown:
+            r = sv.check()
+            solver = "z3"
         st = "discharged" if r == z3.unsat else "refuted" if r == z3.sat else "unknown"
         obs.append({"name": f"stem-lemma/end-is-len-of-prefix{suffix}", "status": st, "solver": solver, "where": "scan postcondition => end == len(P)", "key": f"stem-lemma:{suffix}"})
         return obs
